@@ -51,6 +51,8 @@ pub struct ReqSpec {
     /// 0 = empty body, 1 = one chunk, 2 = two streamed chunks
     pub chunks: u8,
     pub upgrade: bool,
+    /// request target is the root path with a query ("/?q=id") instead of "/r<id>?q=<id>"
+    pub root_path: bool,
 }
 
 #[derive(Clone, Debug)]
@@ -92,7 +94,7 @@ fn expected_for(s: &ReqSpec) -> Resp {
 }
 
 async fn do_request(mut svc: ClientSvc, spec: ReqSpec, obs: Obs) {
-    let uri = format!("http://{}.test/r{}?q={}", spec.origin, spec.id, spec.id);
+    let uri = if spec.root_path { format!("http://{}.test/?q={}", spec.origin, spec.id) } else { format!("http://{}.test/r{}?q={}", spec.origin, spec.id, spec.id) };
     let mut b = http::Request::builder()
         .method(if spec.post { "POST" } else { "GET" })
         .uri(uri)
@@ -276,7 +278,7 @@ pub fn run_one(scn: &Scn, schedule: &[usize]) -> Execution<Outcome> {
             if let Some(seen) = o.seen.get(&spec.id) {
                 let want_body = spec_body(spec).concat();
                 let want_origin = if spec.origin == 'b' { "B" } else { "A" };
-                if seen.method != (if spec.post { "POST" } else { "GET" }) || seen.path != format!("/r{}", spec.id) || seen.query != Some(format!("q={}", spec.id)) || seen.id_header != Some(spec.id.to_string()) || seen.body != want_body || seen.origin != want_origin {
+                if seen.method != (if spec.post { "POST" } else { "GET" }) || seen.path != (if spec.root_path { "/".to_string() } else { format!("/r{}", spec.id) }) || seen.query != Some(format!("q={}", spec.id)) || seen.id_header != Some(spec.id.to_string()) || seen.body != want_body || seen.origin != want_origin {
                     viols.push(("request-altered".into(), format!("the server handled request {} as {seen:?}", spec.id)));
                 }
             }
@@ -299,7 +301,7 @@ pub fn run_one(scn: &Scn, schedule: &[usize]) -> Execution<Outcome> {
 }
 
 fn r(id: u32, origin: char, h2: bool, post: bool, chunks: u8) -> ReqSpec {
-    ReqSpec { id, origin, h2, post, chunks, upgrade: false }
+    ReqSpec { id, origin, h2, post, chunks, upgrade: false, root_path: false }
 }
 
 pub fn scenarios(thorough: bool) -> Vec<Scn> {
@@ -313,7 +315,8 @@ pub fn scenarios(thorough: bool) -> Vec<Scn> {
         mk("two-origins-h1", vec![], vec![r(1, 'a', false, true, 1), r(2, 'b', false, true, 2)], 1024, true),
         mk("h1-small-buffer", vec![], vec![r(1, 'a', false, true, 2), r(2, 'a', false, true, 2)], 16, false),
         mk("h2-small-buffer", vec![], vec![r(1, 'a', true, true, 2), r(2, 'a', true, true, 2)], 16, false),
-        mk("upgrade-then-normal", vec![ReqSpec { id: 9, origin: 'a', h2: false, post: false, chunks: 0, upgrade: true }], vec![r(1, 'a', false, true, 1)], 1024, false),
+        mk("upgrade-then-normal", vec![ReqSpec { id: 9, origin: 'a', h2: false, post: false, chunks: 0, upgrade: true, root_path: false }], vec![r(1, 'a', false, true, 1)], 1024, false),
+        mk("root-path-with-query", vec![], vec![ReqSpec { root_path: true, ..r(1, 'a', false, true, 1) }, ReqSpec { root_path: true, ..r(2, 'a', true, false, 0) }], 1024, false),
         mk("two-origins-preludes", vec![r(8, 'a', false, true, 1), r(9, 'b', false, true, 1)], vec![r(1, 'a', false, true, 1), r(2, 'b', false, true, 1)], 1024, true),
     ];
     if thorough {
